@@ -137,6 +137,9 @@ def write_case(ctx, seed):
                             setattr(msg, k, alts[rng.randrange(len(alts))])
                         except Exception as exc:
                             ctx.fail('written bytes conformant', f'exotic-int-rejected:{type(exc).__name__}', case, f'{k}: {exc}')
+    if rng.random() < 0.2:
+        from .. import abuse
+        abuse.freeze_tracks(mid)          # immutable messages in the tracks: the same file
     buf = io.BytesIO()
     try:
         mid.save(file=buf)
